@@ -183,21 +183,6 @@ Require Verif.Tie.Nuget.
 Require Verif.Tie.Pypi.
 Require Verif.Tie.Rpm.
 Require Verif.Tie.Semver.
-Require Verif.Tie.Loops.Alpine.
-Require Verif.Tie.Loops.Alpm.
-Require Verif.Tie.Loops.Cargo.
-Require Verif.Tie.Loops.Conan.
-Require Verif.Tie.Loops.Cran.
-Require Verif.Tie.Loops.Debian.
-Require Verif.Tie.Loops.Gem.
-Require Verif.Tie.Loops.Golang.
-Require Verif.Tie.Loops.Hex.
-Require Verif.Tie.Loops.Maven.
-Require Verif.Tie.Loops.Npm.
-Require Verif.Tie.Loops.Nuget.
-Require Verif.Tie.Loops.Pypi.
-Require Verif.Tie.Loops.Rpm.
-Require Verif.Tie.Loops.Semver.
 Definition C01_tie_alpine_compareInt := Verif.Tie.Alpine.tie_alpine_compareInt.
 Print Assumptions C01_tie_alpine_compareInt.
 Definition C01_tie_alpine_compareLetters := Verif.Tie.Alpine.tie_alpine_compareLetters.
@@ -280,142 +265,4 @@ Definition C01_tie_semver_compareInt := Verif.Tie.Semver.tie_semver_compareInt.
 Print Assumptions C01_tie_semver_compareInt.
 Definition C01_tie_semver_compare := Verif.Tie.Semver.tie_semver_compare.
 Print Assumptions C01_tie_semver_compare.
-Definition C01_tie_loops_alpine_hasLeadingZero := Verif.Tie.Loops.Alpine.tie_loops_alpine_hasLeadingZero.
-Print Assumptions C01_tie_loops_alpine_hasLeadingZero.
-Definition C01_tie_hasLeadingZero_total_model := Verif.Tie.Loops.Alpine.hasLeadingZero_total_model.
-Print Assumptions C01_tie_hasLeadingZero_total_model.
-Definition C01_tie_loops_alpine_compareNumericArraysNumeric := Verif.Tie.Loops.Alpine.tie_loops_alpine_compareNumericArraysNumeric.
-Print Assumptions C01_tie_loops_alpine_compareNumericArraysNumeric.
-Definition C01_tie_compareNumericArraysNumeric_total_model := Verif.Tie.Loops.Alpine.compareNumericArraysNumeric_total_model.
-Print Assumptions C01_tie_compareNumericArraysNumeric_total_model.
-Definition C01_tie_loops_alpine_compareSuffixArrays := Verif.Tie.Loops.Alpine.tie_loops_alpine_compareSuffixArrays.
-Print Assumptions C01_tie_loops_alpine_compareSuffixArrays.
-Definition C01_tie_compareSuffixArrays_total_model := Verif.Tie.Loops.Alpine.compareSuffixArrays_total_model.
-Print Assumptions C01_tie_compareSuffixArrays_total_model.
-Definition C01_tie_loops_alpm_isAlphaSegment := Verif.Tie.Loops.Alpm.tie_loops_alpm_isAlphaSegment.
-Print Assumptions C01_tie_loops_alpm_isAlphaSegment.
-Definition C01_tie_isAlphaSegment_total_model := Verif.Tie.Loops.Alpm.isAlphaSegment_total_model.
-Print Assumptions C01_tie_isAlphaSegment_total_model.
-Definition C01_tie_loops_alpm_compareALMPDigits := Verif.Tie.Loops.Alpm.tie_loops_alpm_compareALMPDigits.
-Print Assumptions C01_tie_loops_alpm_compareALMPDigits.
-Definition C01_tie_loops_alpm_compareSegments := Verif.Tie.Loops.Alpm.tie_loops_alpm_compareSegments.
-Print Assumptions C01_tie_loops_alpm_compareSegments.
-Definition C01_tie_compareSegments_total_model := Verif.Tie.Loops.Alpm.compareSegments_total_model.
-Print Assumptions C01_tie_compareSegments_total_model.
-Definition C01_tie_loops_alpm_segment_loop := Verif.Tie.Loops.Alpm.loops_alpm_segment_loop.
-Print Assumptions C01_tie_loops_alpm_segment_loop.
-Definition C01_tie_loops_alpm_compareSegmentBySegment := Verif.Tie.Loops.Alpm.tie_loops_alpm_compareSegmentBySegment.
-Print Assumptions C01_tie_loops_alpm_compareSegmentBySegment.
-Definition C01_tie_compareSegmentBySegment_total_model := Verif.Tie.Loops.Alpm.compareSegmentBySegment_total_model.
-Print Assumptions C01_tie_compareSegmentBySegment_total_model.
-Definition C01_tie_alpm_compare_closed := Verif.Tie.Loops.Alpm.tie_alpm_compare_closed.
-Print Assumptions C01_tie_alpm_compare_closed.
-Definition C01_tie_loops_alpm_compareSegmentBySegment_closed := Verif.Tie.Loops.Alpm.tie_loops_alpm_compareSegmentBySegment_closed.
-Print Assumptions C01_tie_loops_alpm_compareSegmentBySegment_closed.
-Definition C01_tie_alpm_compare_closed_model_split := Verif.Tie.Loops.Alpm.tie_alpm_compare_closed_model_split.
-Print Assumptions C01_tie_alpm_compare_closed_model_split.
-Definition C01_tie_loops_cargo_comparePrereleaseIdentifiers := Verif.Tie.Loops.Cargo.tie_loops_cargo_comparePrereleaseIdentifiers.
-Print Assumptions C01_tie_loops_cargo_comparePrereleaseIdentifiers.
-Definition C01_tie_comparePrereleaseIdentifiers_total_model := Verif.Tie.Loops.Cargo.comparePrereleaseIdentifiers_total_model.
-Print Assumptions C01_tie_comparePrereleaseIdentifiers_total_model.
-Definition C01_tie_cargo_compare_closed := Verif.Tie.Loops.Cargo.tie_cargo_compare_closed.
-Print Assumptions C01_tie_cargo_compare_closed.
-Definition C01_tie_loops_conan_naturalCompare := Verif.Tie.Loops.Conan.tie_loops_conan_naturalCompare.
-Print Assumptions C01_tie_loops_conan_naturalCompare.
-Definition C01_tie_naturalCompare_total_model := Verif.Tie.Loops.Conan.naturalCompare_total_model.
-Print Assumptions C01_tie_naturalCompare_total_model.
-Definition C01_tie_loops_conan_compareVersionParts := Verif.Tie.Loops.Conan.tie_loops_conan_compareVersionParts.
-Print Assumptions C01_tie_loops_conan_compareVersionParts.
-Definition C01_tie_compareVersionParts_total_model := Verif.Tie.Loops.Conan.compareVersionParts_total_model.
-Print Assumptions C01_tie_compareVersionParts_total_model.
-Definition C01_tie_loops_conan_comparePrerelease := Verif.Tie.Loops.Conan.tie_loops_conan_comparePrerelease.
-Print Assumptions C01_tie_loops_conan_comparePrerelease.
-Definition C01_tie_comparePrerelease_total_model := Verif.Tie.Loops.Conan.comparePrerelease_total_model.
-Print Assumptions C01_tie_comparePrerelease_total_model.
-Definition C01_tie_conan_compare_closed := Verif.Tie.Loops.Conan.tie_conan_compare_closed.
-Print Assumptions C01_tie_conan_compare_closed.
-Definition C01_tie_loops_cran_compare := Verif.Tie.Loops.Cran.tie_loops_cran_compare.
-Print Assumptions C01_tie_loops_cran_compare.
-Definition C01_tie_Version_Compare_total_model := Verif.Tie.Loops.Cran.Version_Compare_total_model.
-Print Assumptions C01_tie_Version_Compare_total_model.
-Definition C01_tie_loops_debian_compareDebianDigits := Verif.Tie.Loops.Debian.tie_loops_debian_compareDebianDigits.
-Print Assumptions C01_tie_loops_debian_compareDebianDigits.
-Definition C01_tie_loops_debian_getDebianCharWeight := Verif.Tie.Loops.Debian.tie_loops_debian_getDebianCharWeight.
-Print Assumptions C01_tie_loops_debian_getDebianCharWeight.
-Definition C01_tie_loops_debian_compareDebianNonDigits := Verif.Tie.Loops.Debian.tie_loops_debian_compareDebianNonDigits.
-Print Assumptions C01_tie_loops_debian_compareDebianNonDigits.
-Definition C01_tie_loops_debian_compareDebianNonDigits_sum := Verif.Tie.Loops.Debian.tie_loops_debian_compareDebianNonDigits_sum.
-Print Assumptions C01_tie_loops_debian_compareDebianNonDigits_sum.
-Definition C01_tie_loops_debian_compareDebianVersionString := Verif.Tie.Loops.Debian.tie_loops_debian_compareDebianVersionString.
-Print Assumptions C01_tie_loops_debian_compareDebianVersionString.
-Definition C01_tie_compareDebianVersionString_total_model := Verif.Tie.Loops.Debian.compareDebianVersionString_total_model.
-Print Assumptions C01_tie_compareDebianVersionString_total_model.
-Definition C01_tie_debian_compare_closed := Verif.Tie.Loops.Debian.tie_debian_compare_closed.
-Print Assumptions C01_tie_debian_compare_closed.
-Definition C01_tie_loops_gem_removeTrailingZeros_exact := Verif.Tie.Loops.Gem.tie_loops_gem_removeTrailingZeros_exact.
-Print Assumptions C01_tie_loops_gem_removeTrailingZeros_exact.
-Definition C01_tie_loops_gem_removeTrailingZeros := Verif.Tie.Loops.Gem.tie_loops_gem_removeTrailingZeros.
-Print Assumptions C01_tie_loops_gem_removeTrailingZeros.
-Definition C01_tie_removeTrailingZeros_total_model := Verif.Tie.Loops.Gem.removeTrailingZeros_total_model.
-Print Assumptions C01_tie_removeTrailingZeros_total_model.
-Definition C01_tie_loops_gem_split_exact := Verif.Tie.Loops.Gem.tie_loops_gem_split_exact.
-Print Assumptions C01_tie_loops_gem_split_exact.
-Definition C01_tie_loops_gem_split := Verif.Tie.Loops.Gem.tie_loops_gem_split.
-Print Assumptions C01_tie_loops_gem_split.
-Definition C01_tie_Version_splitNumericAndPrerelease_total_model := Verif.Tie.Loops.Gem.Version_splitNumericAndPrerelease_total_model.
-Print Assumptions C01_tie_Version_splitNumericAndPrerelease_total_model.
-Definition C01_tie_loops_gem_compareSegmentArrays := Verif.Tie.Loops.Gem.tie_loops_gem_compareSegmentArrays.
-Print Assumptions C01_tie_loops_gem_compareSegmentArrays.
-Definition C01_tie_compareSegmentArrays_total_model := Verif.Tie.Loops.Gem.compareSegmentArrays_total_model.
-Print Assumptions C01_tie_compareSegmentArrays_total_model.
-Definition C01_tie_loops_gem_compare := Verif.Tie.Loops.Gem.tie_loops_gem_compare.
-Print Assumptions C01_tie_loops_gem_compare.
-Definition C01_tie_loops_golang_comparePrerelease := Verif.Tie.Loops.Golang.tie_loops_golang_comparePrerelease.
-Print Assumptions C01_tie_loops_golang_comparePrerelease.
-Definition C01_tie_golang_compare_closed := Verif.Tie.Loops.Golang.tie_golang_compare_closed.
-Print Assumptions C01_tie_golang_compare_closed.
-Definition C01_tie_loops_hex_comparePreRelease := Verif.Tie.Loops.Hex.tie_loops_hex_comparePreRelease.
-Print Assumptions C01_tie_loops_hex_comparePreRelease.
-Definition C01_tie_comparePreRelease_total_model := Verif.Tie.Loops.Hex.comparePreRelease_total_model.
-Print Assumptions C01_tie_comparePreRelease_total_model.
-Definition C01_tie_hex_compare_closed := Verif.Tie.Loops.Hex.tie_hex_compare_closed.
-Print Assumptions C01_tie_hex_compare_closed.
-Definition C01_tie_loops_maven_trimTrailingNulls_gen := Verif.Tie.Loops.Maven.tie_loops_maven_trimTrailingNulls_gen.
-Print Assumptions C01_tie_loops_maven_trimTrailingNulls_gen.
-Definition C01_tie_loops_maven_trimTrailingNulls := Verif.Tie.Loops.Maven.tie_loops_maven_trimTrailingNulls.
-Print Assumptions C01_tie_loops_maven_trimTrailingNulls.
-Definition C01_tie_trimTrailingNulls_total_model := Verif.Tie.Loops.Maven.trimTrailingNulls_total_model.
-Print Assumptions C01_tie_trimTrailingNulls_total_model.
-Definition C01_tie_loops_npm_comparePrerelease := Verif.Tie.Loops.Npm.tie_loops_npm_comparePrerelease.
-Print Assumptions C01_tie_loops_npm_comparePrerelease.
-Definition C01_tie_npm_compare_closed := Verif.Tie.Loops.Npm.tie_npm_compare_closed.
-Print Assumptions C01_tie_npm_compare_closed.
-Definition C01_tie_loops_nuget_comparePrerelease := Verif.Tie.Loops.Nuget.tie_loops_nuget_comparePrerelease.
-Print Assumptions C01_tie_loops_nuget_comparePrerelease.
-Definition C01_tie_nuget_compare_closed := Verif.Tie.Loops.Nuget.tie_nuget_compare_closed.
-Print Assumptions C01_tie_nuget_compare_closed.
-Definition C01_tie_loops_pypi_compareReleaseVersions := Verif.Tie.Loops.Pypi.tie_loops_pypi_compareReleaseVersions.
-Print Assumptions C01_tie_loops_pypi_compareReleaseVersions.
-Definition C01_tie_compareReleaseVersions_total_model := Verif.Tie.Loops.Pypi.compareReleaseVersions_total_model.
-Print Assumptions C01_tie_compareReleaseVersions_total_model.
-Definition C01_tie_pypi_compare_closed := Verif.Tie.Loops.Pypi.tie_pypi_compare_closed.
-Print Assumptions C01_tie_pypi_compare_closed.
-Definition C01_tie_loops_rpm_isSeparator := Verif.Tie.Loops.Rpm.tie_loops_rpm_isSeparator.
-Print Assumptions C01_tie_loops_rpm_isSeparator.
-Definition C01_tie_loops_rpm_isSeparator_rune := Verif.Tie.Loops.Rpm.tie_loops_rpm_isSeparator_rune.
-Print Assumptions C01_tie_loops_rpm_isSeparator_rune.
-Definition C01_tie_loops_rpm_compareRPMDigits := Verif.Tie.Loops.Rpm.tie_loops_rpm_compareRPMDigits.
-Print Assumptions C01_tie_loops_rpm_compareRPMDigits.
-Definition C01_tie_rpm_compareRPMNonDigits := Verif.Tie.Loops.Rpm.tie_rpm_compareRPMNonDigits.
-Print Assumptions C01_tie_rpm_compareRPMNonDigits.
-Definition C01_tie_loops_rpm_compareRPMVersionString := Verif.Tie.Loops.Rpm.tie_loops_rpm_compareRPMVersionString.
-Print Assumptions C01_tie_loops_rpm_compareRPMVersionString.
-Definition C01_tie_compareRPMVersionString_total_model := Verif.Tie.Loops.Rpm.compareRPMVersionString_total_model.
-Print Assumptions C01_tie_compareRPMVersionString_total_model.
-Definition C01_tie_rpm_compare_closed := Verif.Tie.Loops.Rpm.tie_rpm_compare_closed.
-Print Assumptions C01_tie_rpm_compare_closed.
-Definition C01_tie_loops_semver_comparePrerelease := Verif.Tie.Loops.Semver.tie_loops_semver_comparePrerelease.
-Print Assumptions C01_tie_loops_semver_comparePrerelease.
-Definition C01_tie_semver_compare_closed := Verif.Tie.Loops.Semver.tie_semver_compare_closed.
-Print Assumptions C01_tie_semver_compare_closed.
 (* ====== ties to the source: END ====== *)
